@@ -795,6 +795,15 @@ fn sweep(thorough: bool) -> Vec<SE> {
     }
     v.push(SE::Cycle(vec![]));
     v.push(SE::Perms(vec![vi(1), vi(1), vi(2)], 0));
+    // regression inputs of the defects fixed through this check (F3, F4, F14, F15, F19, F21 and
+    // Combinations::peek); they must keep passing
+    v.push(SE::Til(b(10), b(0), Some(b(-3)), 0));
+    v.push(SE::Wrap(vec![vi(1), vi(2), vi(3)], 0));
+    v.push(SE::Perms(vec![], 0));
+    v.push(SE::Cpow(vec![], 0));
+    v.push(SE::DropWhile("lt:3".into(), Box::new(SE::To(b(1), b(5), None, 0))));
+    v.push(SE::DropWhile("tt".into(), Box::new(SE::Combs(vec![vi(1), vi(2)], 3))));
+    v.push(SE::Map("lenf".into(), Box::new(SE::DropWhile("tt".into(), Box::new(SE::Combs(vec![vi(1), vi(2)], 3))))));
     v
 }
 
@@ -1058,7 +1067,7 @@ fn main() {
     let thorough = args.tier == "thorough";
     let mut rng = Rng::new(args.seed);
     let edges = edge_ints();
-    let (n_random, nobs) = if thorough { (40_000usize, 12usize) } else { (8_000usize, 11usize) };
+    let (n_random, nobs) = if thorough { (120_000usize, 12usize) } else { (8_000usize, 11usize) };
     let mut uniq = 0usize;
     let mut cases: Vec<Case> = vec![];
     for e in sweep(thorough) {
@@ -1111,6 +1120,7 @@ fn main() {
     let resp = run_driver(&args.driver, &requests);
 
     let mut unspecified = 0u64;
+    let mut unsupported = 0u64;
     let mut skipped = 0u64;
     let mut per_key: HashMap<String, u64> = HashMap::new();
     for (ri, (ci, oi)) in meta.iter().enumerate() {
@@ -1135,6 +1145,12 @@ fn main() {
             }
         };
         let parts: Vec<&str> = resp[ri].split('\t').collect();
+        if parts[0] == "unsupported" {
+            // a composition of named functions with elements of the wrong kind: outside the model
+            // (the generators are written not to produce any; counted so that a slip is visible)
+            unsupported += 1;
+            continue;
+        }
         let src_full = format!("s := {}; {}", c.expr.src(), o.src);
         let nontrivial = !matches!(c.expr, SE::Til(_, _, None, _) | SE::To(_, _, None, _));
         rep.case(&format!("{} | {}", c.expr.tok(), o.tok), nontrivial);
@@ -1182,6 +1198,7 @@ fn main() {
     }
     rep.notes.push(format!("cases (stream variables): {}", cases.len()));
     rep.notes.push(format!("observations where the property is silent (negative positions / reversal of infinite streams, progressions longer than 10^7): {} (compared with the Impl model only)", unspecified));
+    rep.notes.push(format!("requests outside the model (ill-kinded function applications, never intended): {}", unsupported));
     if skipped > 0 {
         rep.notes.push(format!("observations skipped after a hang/abort in the same case: {}", skipped));
     }
